@@ -58,9 +58,11 @@
 (*     forfeiting position (its real forfeit may fall short by that much).    *)
 (* u = 1e-18 per record and update: truncating rate * elapsed delays emission *)
 (* by less than that, nothing else in the code rounds in a position's favour. *)
-(* Calibration (unchanged tree, seeds 1-5, quick + thorough): C never exceeded *)
-(* ia at all; worst slack / dust where the ulp term dominates (dust >= 10):    *)
-(* 0.73; where whole-token truncation dominates: 1.0 (999 of 1000 paid).      *)
+(* Calibration (unchanged tree; seeds 1-5 quick: 4.1e5 judgements, thorough:   *)
+(* 2.8e6): C never exceeded ia at all; worst slack / dust where the ulp term   *)
+(* dominates (dust >= 10 tokens): 0.73 quick, 0.96 thorough; where whole-token *)
+(* truncation dominates: 0.999 (999 of 1000 paid).  The bound is the worst     *)
+(* case of the truncations, no safety factor is applied on top of it.          *)
 (* StartClip = TRUE is the property (a record emits from its start time on);  *)
 (* StartClip = FALSE replaces the overlap by what the code is known to do     *)
 (* (finding C08 'incentive emits for time before its start': the first update *)
@@ -427,12 +429,14 @@ WorstOver(g, st, S, acc) ==
                        IF ~(RPos(sl) /\ RPos(du)) THEN acc
                        ELSE LET ra == RNorm(RDiv(sl, du)) IN
                             <<RMax(acc[1], ra), IF RLe(RInt(B!OfInt(10)), du) THEN RMax(acc[2], ra) ELSE acc[2], RMax(acc[3], RNorm(sl))>>)
-Stat(g, st) ==
-    LET rows == {<<i, k>> : i \in DOMAIN g.ia, k \in IncK}
-        acc == WorstOver(g, st, rows, <<g.w, g.wbig, g.wabs>>)
+\* (the slack can only have grown where time passed or a position was settled)
+Stat(g, ev) ==
+    LET st == ev.st
+        rows == {<<i, k>> : i \in DOMAIN g.ia, k \in IncK}
+        acc == IF ev.op = "time" \/ IsClaim(ev) THEN WorstOver(g, st, rows, <<g.w, g.wbig, g.wabs>>) ELSE <<g.w, g.wbig, g.wabs>>
     IN  [g EXCEPT !.w = acc[1], !.wbig = acc[2], !.wabs = acc[3], !.nchk = @ + Cardinality(rows)]
 
-NextG(ev) == Stat(NewRec(Claim(NewPos(SyncDust(Accrue(G, ev.st), ev.st), ev.st), ev), ev), ev.st)
+NextG(ev) == Stat(NewRec(Claim(NewPos(SyncDust(Accrue(G, ev.st), ev.st), ev.st), ev), ev), ev)
 
 Milli(r) == LET f == RFloor(RMul(r, RInt(B!OfInt(1000)))) IN IF B!Le(f, B!OfInt(2000000000)) THEN B!ToInt(f) ELSE 2000000000
 PrintStats(g) == PrintT(<<"INC-STATS", ToJson([intervals |-> g.nint, accruals |-> g.nacc, records |-> Len(g.rec), settlements |-> g.nclaim,
